@@ -297,6 +297,24 @@ def _alternatives(expr, step):
                 if not known_none:
                     out.append(member)
             return out
+    # a value of a dict comprehension over a literal sequence of pairs:
+    #   {name: poly for name, poly in (("append", append), ("prepend", prepend)) if poly is not None}
+    if is_S(base, "value") and base.args and isinstance(base.args[0], ast.DictComp):
+        comp = base.args[0]
+        value = comp.value
+        if isinstance(value, ast.Subscript) and isinstance(value.slice, ast.Constant) and isinstance(value.slice.value, int) \
+                and is_S(value.value, "elem") and value.value.args and isinstance(value.value.args[0], (ast.Tuple, ast.List)):
+            lit = value.value.args[0]
+            k = value.slice.value
+            if lit.elts and all(isinstance(e, (ast.Tuple, ast.List)) and len(e.elts) > k for e in lit.elts):
+                out = []
+                for pair in lit.elts:
+                    member = pair.elts[k]
+                    known_none = step.fact(f"{U(member)} is None") is True or (
+                        isinstance(member, ast.Constant) and member.value is None)
+                    if not known_none:
+                        out.append(member)
+                return out
     return [expr]
 
 
